@@ -198,3 +198,44 @@ def parallel(fn, items, par=8):
     from concurrent.futures import ThreadPoolExecutor
     with ThreadPoolExecutor(max_workers=par) as ex:
         return list(ex.map(fn, items))
+
+
+def run_known_corpus(ctx):
+    """Programs kept for recorded (not repaired) defects of the runtime
+    (corpus/known/<id>/).  Each is run with the current mrp: if it completes
+    with the correct result the defect is gone and nothing is reported; if it
+    fails the way the finding says, that is the KNOWN-FINDING; any other
+    failure is a violation."""
+    root = os.path.join(lib.VERIF, "corpus", "known")
+    n = 0
+    for name in sorted(os.listdir(root)):
+        meta = json.load(open(os.path.join(root, name, "meta.json")))
+        if ctx.prop not in meta["properties"]:
+            continue
+        d = os.path.join(ctx.scratch, "known_" + name)
+        os.makedirs(d, exist_ok=True)
+        src = open(os.path.join(root, name, "pipeline.mro")).read().replace("@STAGE@", ctx.vh + " __stage")
+        open(os.path.join(d, "pipeline.mro"), "w").write(src)
+        shutil.copy(os.path.join(root, name, "spec.json"), d)
+        env = dict(os.environ, MROPATH=d, VH_SPEC=os.path.join(d, "spec.json"), VH_EVENTS=os.path.join(d, "ps.events"))
+        try:
+            p = subprocess.run([os.path.join(ctx.mart, "bin", "mrp"), "pipeline.mro", "ps", "--localcores=4", "--localmem=4",
+                                "--disable-ui", "--nopreflight"], cwd=d, env=env, stdout=subprocess.PIPE,
+                               stderr=subprocess.STDOUT, text=True, timeout=40)
+            out, rc = p.stdout, p.returncode
+        except subprocess.TimeoutExpired as e:
+            out, rc = (e.stdout or b"").decode() if isinstance(e.stdout, bytes) else (e.stdout or ""), -2
+        n += 1
+        outs = ""
+        try:
+            outs = lib.run([ctx.vh, "c01", "topouts", d, "ps"], timeout=30).stdout.strip()
+        except Exception:
+            pass
+        if rc == 0 and outs == meta["expect_outs"]:
+            continue        # repaired
+        if re.search(meta["expect_regex"], out):
+            ctx.fail("corpus:" + name, meta["what"], {"program": name, "exit": rc, "log_tail": out[-800:]})
+        else:
+            ctx.fail("corpus_unexpected:" + name, "known-finding program %s fails differently (exit %d)" % (name, rc),
+                     {"program": name, "exit": rc, "log_tail": out[-1500:], "outs": outs})
+    return n
